@@ -266,7 +266,7 @@ func ruleTruthfulAddresses(c *Ctx, rule string) {
 			}
 			lit := w.literalOf(al)
 			pos := w.instrPos(in)
-			switch n.Obj().Name() {
+			switch nm(n.Obj()) {
 			case "XORMappedAddress":
 				if len(lit.fields) == 0 {
 					return
